@@ -1020,7 +1020,7 @@ impl ser::Serializer for ValueSerializer {
     where
         T: ser::Serialize + ?Sized,
     {
-        value.serialize(self)
+        value.serialize(self).map_err(none_is_not_the_field)
     }
 
     fn serialize_newtype_variant<T>(
@@ -1047,7 +1047,7 @@ impl ser::Serializer for ValueSerializer {
     where
         T: ser::Serialize + ?Sized,
     {
-        value.serialize(self)
+        value.serialize(self).map_err(none_is_not_the_field)
     }
 
     fn serialize_seq(self, len: Option<usize>) -> Result<Self::SerializeSeq, crate::ser::Error> {
@@ -1288,6 +1288,17 @@ impl ser::Serializer for TableSerializer {
 
 struct ValueSerializeVec {
     vec: Vec<Value>,
+}
+
+/// A `None` inside `Some(..)` or behind a newtype struct cannot be left out like a `None` field:
+/// report it in a way the enclosing table cannot mistake for one, which it silently skips.
+fn none_is_not_the_field(e: crate::ser::Error) -> crate::ser::Error {
+    match e.inner {
+        crate::edit::ser::Error::UnsupportedNone => {
+            <crate::ser::Error as ser::Error>::custom(crate::edit::ser::Error::UnsupportedNone)
+        }
+        _ => e,
+    }
 }
 
 impl ser::SerializeSeq for ValueSerializeVec {
